@@ -13,15 +13,18 @@ Variable waits : E -> list kp -> bool.
 Variable eff : bid -> list kp -> E -> E * option res.
 Variable is_cprh : bid -> bool.
 Variable cpr_lookup : E -> option bid.
+Variable feeds : bid -> list kp -> E -> list kp.
 
 Notation core := (core E bid res).
-Notation call := (call eff is_cprh).
+Notation call := (call eff is_cprh feeds).
 Notation scan := (@scan E bid res lookup_scan).
-Notation loop := (loop lookup lookup_scan waits eff is_cprh).
-Notation send := (send lookup lookup_scan waits eff is_cprh).
-Notation handle_cpr := (handle_cpr eff is_cprh cpr_lookup).
-Notation deliver := (deliver lookup lookup_scan waits eff is_cprh cpr_lookup).
-Notation process_q := (process_q lookup lookup_scan waits eff is_cprh cpr_lookup).
+Notation loop := (loop lookup lookup_scan waits eff is_cprh feeds).
+Notation send := (send lookup lookup_scan waits eff is_cprh feeds).
+Notation handle_cpr := (handle_cpr eff is_cprh cpr_lookup feeds).
+Notation deliver := (deliver lookup lookup_scan waits eff is_cprh cpr_lookup feeds).
+Notation drain := (drain lookup lookup_scan waits eff is_cprh cpr_lookup feeds).
+Notation deliver_d := (deliver_d lookup lookup_scan waits eff is_cprh cpr_lookup feeds).
+Notation process_q := (process_q lookup lookup_scan waits eff is_cprh cpr_lookup feeds).
 
 (* every key press that left the queue and was not pushed back: logged, or still in the key buffer *)
 Definition acc (c : core) : list kp := logged c ++ kbuf c ++ pb c.
@@ -54,76 +57,6 @@ Proof.
   destruct (lookup_scan (est c) (firstn (S n) (kbuf c))) eqn:L.
   - intros H; inversion H; subst; exact L.
   - exact IH.
-Qed.
-
-(* ---------------------------------------------------------------------- *)
-(* conservation through one activation of the coroutine *)
-
-Lemma acc_push_back (c : core) : acc (push_back c) = acc c.
-Proof. unfold acc, push_back, logged; cbn [rlog kbuf pb app]. reflexivity. Qed.
-
-Lemma retry_acc (k : core -> core) (c1 : core) :
-  (forall c, acc (k c) = acc c) -> acc (retry k c1) = acc c1.
-Proof. intros H. unfold retry. destruct (late c1); [apply acc_push_back|apply H]. Qed.
-
-Lemma loop_acc fuel : forall fl (c : core), acc (loop fuel fl c) = acc c.
-Proof.
-  induction fuel as [|f IH]; intros fl c; cbn [C17_Typeahead.loop].
-  - destruct (kbuf c); reflexivity.
-  - destruct (kbuf c) as [|k0 tl0] eqn:KB; [reflexivity|].
-    assert (X : forall b, acc (set_kbuf [] (call b (k0 :: tl0) c)) = acc c).
-    { intros b. unfold acc; cbn [kbuf set_kbuf pb C17_Typeahead.call].
-      change (logged (set_kbuf [] (call b (k0 :: tl0) c))) with (logged (call b (k0 :: tl0) c)).
-      rewrite logged_call, KB, <- app_assoc. reflexivity. }
-    assert (Y : forall b i, acc (retry (loop f false) (set_kbuf (skipn i (k0 :: tl0)) (call b (firstn i (k0 :: tl0)) c))) = acc c).
-    { intros b i. rewrite retry_acc; [|intros; apply IH]. unfold acc; cbn [kbuf set_kbuf pb C17_Typeahead.call].
-      change (logged (set_kbuf (skipn i (k0 :: tl0)) (call b (firstn i (k0 :: tl0)) c))) with (logged (call b (firstn i (k0 :: tl0)) c)).
-      rewrite logged_call, KB, <- app_assoc, (app_assoc (firstn i (k0 :: tl0))), firstn_skipn. reflexivity. }
-    assert (Z : acc (retry (loop f false) (set_kbuf tl0 (add_ev (@EDrop bid (late c) k0) c))) = acc c).
-    { rewrite retry_acc; [|intros; apply IH]. unfold acc; cbn [kbuf set_kbuf pb add_ev].
-      change (logged (set_kbuf tl0 (add_ev (@EDrop bid (late c) k0) c))) with (logged (add_ev (@EDrop bid (late c) k0) c)).
-      rewrite logged_cons, KB, <- app_assoc. reflexivity. }
-    destruct (cph c) eqn:PH; [| |reflexivity].
-    + destruct (negb fl && waits (est c) (k0 :: tl0)); [reflexivity|].
-      destruct (lookup (est c) (k0 :: tl0)) as [b|]; [apply X|].
-      destruct (scan (length (k0 :: tl0)) c) as [[b i]|]; [apply Y|apply Z].
-    + destruct (negb fl && waits (est c) (k0 :: tl0)); [reflexivity|].
-      destruct (lookup (est c) (k0 :: tl0)) as [b|]; [apply X|].
-      destruct (scan (length (k0 :: tl0)) c) as [[b i]|]; [apply Y|apply Z].
-Qed.
-
-Lemma send_acc_key k (c : core) : pb c = [] -> acc (send (IKey k) c) = acc c ++ [k].
-Proof.
-  intros P. unfold C17_Typeahead.send. rewrite loop_acc. unfold acc; cbn [kbuf set_kbuf pb].
-  change (logged (set_kbuf (kbuf c ++ [k]) c)) with (logged c). rewrite P, !app_nil_r, app_assoc. reflexivity.
-Qed.
-
-Lemma send_acc_flush (c : core) : acc (send IFlush c) = acc c.
-Proof. unfold C17_Typeahead.send. apply loop_acc. Qed.
-
-Lemma nc_app a b : nc (a ++ b) = nc a ++ nc b.
-Proof. unfold nc. apply filter_app. Qed.
-
-Lemma nc_cpr k : is_cpr k = true -> nc [k] = [].
-Proof. unfold nc; cbn [filter]. intros ->. reflexivity. Qed.
-
-Lemma nc_single k : is_cpr k = false -> nc [k] = [k].
-Proof. unfold nc; cbn [filter]. intros ->. reflexivity. Qed.
-
-Lemma handle_cpr_acc k (c : core) : is_cpr k = true -> nc (acc (handle_cpr k c)) = nc (acc c).
-Proof.
-  intros CK. unfold C17_Typeahead.handle_cpr. destruct (cpr_lookup (est c)) as [b|]; [|reflexivity].
-  unfold acc. cbn [kbuf pb C17_Typeahead.call]. rewrite logged_call, !nc_app, (nc_cpr k CK), app_nil_r. reflexivity.
-Qed.
-
-Lemma deliver_acc it (c : core) : pb c = [] ->
-  nc (acc (deliver it c)) = nc (acc c) ++ nc (ikeys [it]).
-Proof.
-  intros P. destruct it as [k|]; cbn [C17_Typeahead.deliver ikeys].
-  - destruct (is_cpr k) eqn:CK.
-    + rewrite (handle_cpr_acc k c CK), (nc_cpr k CK), app_nil_r. reflexivity.
-    + rewrite (send_acc_key k c P), nc_app. reflexivity.
-  - rewrite send_acc_flush. cbn. now rewrite app_nil_r.
 Qed.
 
 (* ---------------------------------------------------------------------- *)
@@ -171,32 +104,26 @@ Proof.
   destruct (is_cpr k); [apply handle_cpr_not_run|apply send_not_run]; exact H.
 Qed.
 
-(* keys are pushed back only when the result is set *)
-Lemma loop_pb_run fuel : forall fl (c : core), cph (loop fuel fl c) = CRun res -> pb (loop fuel fl c) = pb c.
+(* with the result still unset nothing is left to go back to the queue *)
+Lemma drain_pb_run l : forall c : core, pb c = [] -> cph (drain l c) = CRun res -> pb (drain l c) = [].
 Proof.
-  induction fuel as [|f IH]; intros fl c H; cbn [C17_Typeahead.loop] in *.
-  - destruct (kbuf c); reflexivity.
-  - destruct (kbuf c) as [|k0 tl0] eqn:KB; [reflexivity|].
-    assert (R : forall c1, pb c1 = pb c -> cph (retry (loop f false) c1) = CRun res -> pb (retry (loop f false) c1) = pb c).
-    { intros c1 P1 H1. unfold retry in *. destruct (late c1) eqn:L.
-      - unfold late in L. cbn [push_back cph] in H1. rewrite H1 in L. discriminate.
-      - rewrite IH; assumption. }
-    destruct (cph c) eqn:PH; [| |reflexivity].
-    + destruct (negb fl && waits (est c) (k0 :: tl0)); [reflexivity|].
-      destruct (lookup (est c) (k0 :: tl0)) as [b|]; [reflexivity|].
-      destruct (scan (length (k0 :: tl0)) c) as [[b i]|]; apply R; auto.
-    + destruct (negb fl && waits (est c) (k0 :: tl0)); [reflexivity|].
-      destruct (lookup (est c) (k0 :: tl0)) as [b|]; [reflexivity|].
-      destruct (scan (length (k0 :: tl0)) c) as [[b i]|]; apply R; auto.
+  induction l as [|k l IH]; intros c P H; cbn [C17_Typeahead.drain] in *; [exact P|].
+  destruct (cph (deliver (IKey k) c)) eqn:PC.
+  - destruct (pb (deliver (IKey k) c)) eqn:PB; [apply IH; assumption|reflexivity].
+  - cbn [cph set_pb] in H. congruence.
+  - cbn [cph set_pb] in H. congruence.
 Qed.
 
-Lemma deliver_pb_run it (c : core) : cph (deliver it c) = CRun res -> pb (deliver it c) = pb c.
+Lemma deliver_d_pb_run it (c : core) : cph (deliver_d it c) = CRun res -> pb (deliver_d it c) = [].
 Proof.
-  destruct it as [k|]; cbn [C17_Typeahead.deliver].
-  - destruct (is_cpr k).
-    + intros _. unfold C17_Typeahead.handle_cpr. destruct (cpr_lookup (est c)); reflexivity.
-    + unfold C17_Typeahead.send. intros H. rewrite loop_pb_run; [reflexivity|exact H].
-  - unfold C17_Typeahead.send. intros H. rewrite loop_pb_run; [reflexivity|exact H].
+  unfold C17_Typeahead.deliver_d. destruct (cph (deliver it c)) eqn:PC; [|congruence|congruence].
+  apply drain_pb_run. reflexivity.
+Qed.
+
+Lemma drain_not_run_back l : forall c : core, cph (drain l c) = CRun res -> l = [] \/ cph (deliver (IKey (hd (KChar 0, []) l)) c) = CRun res.
+Proof.
+  destruct l as [|k l]; intros c H; [left; reflexivity|right]. cbn [C17_Typeahead.drain hd] in *.
+  destruct (cph (deliver (IKey k) c)) eqn:PC; [reflexivity| |]; cbn [cph set_pb] in H; congruence.
 Qed.
 
 (* ---------------------------------------------------------------------- *)
@@ -239,6 +166,30 @@ Proof.
   unfold C17_Typeahead.handle_cpr. destruct (cpr_lookup (est c)); reflexivity.
 Qed.
 
+Lemma drain_oof l : forall c : core, oof (drain l c) = oof c.
+Proof.
+  induction l as [|k l IH]; intros c; cbn [C17_Typeahead.drain]; [reflexivity|].
+  destruct (cph (deliver (IKey k) c)); [|cbn [oof set_pb]; apply deliver_oof|cbn [oof set_pb]; apply deliver_oof].
+  destruct (pb (deliver (IKey k) c)); [rewrite IH; apply deliver_oof|cbn [oof set_deep clear_pb]; apply deliver_oof].
+Qed.
+
+Lemma deliver_d_oof it (c : core) : oof (deliver_d it c) = oof c.
+Proof.
+  unfold C17_Typeahead.deliver_d. destruct (cph (deliver it c)); [|apply deliver_oof|apply deliver_oof].
+  rewrite drain_oof. cbn [oof clear_pb]. apply deliver_oof.
+Qed.
+
+Lemma deliver_d_not_run it (c : core) : not_run c -> not_run (deliver_d it c).
+Proof.
+  intros H. pose proof (deliver_not_run it c H) as N. unfold C17_Typeahead.deliver_d, not_run in *.
+  destruct (cph (deliver it c)) eqn:PC; [congruence|rewrite PC; congruence|rewrite PC; congruence].
+Qed.
+
+Lemma pop_eq it (c : core) :
+  est (pop it c) = est c /\ kbuf (pop it c) = kbuf c /\ cph (pop it c) = cph c /\ pb (pop it c) = pb c /\
+  rlog (pop it c) = rlog c /\ oof (pop it c) = oof c.
+Proof. destruct it; cbn; auto 7. Qed.
+
 (* ---------------------------------------------------------------------- *)
 (* process_keys *)
 
@@ -246,9 +197,9 @@ Lemma process_q_oof q : forall c : core, oof (fst (process_q q c)) = oof c.
 Proof.
   induction q as [|it q IH]; intros c; cbn [C17_Typeahead.process_q]; [reflexivity|].
   destruct (cph c); [| |reflexivity].
-  - cbn [fst]. rewrite IH. cbn [oof clear_pb]. apply deliver_oof.
+  - cbn [fst]. rewrite IH. cbn [oof clear_pb]. rewrite deliver_d_oof. apply pop_eq.
   - destruct (item_is_cpr it).
-    + rewrite IH. apply deliver_oof.
+    + cbn [fst]. rewrite IH. cbn [oof clear_pb]. rewrite deliver_oof. apply pop_eq.
     + cbn [fst]. apply IH.
 Qed.
 
@@ -257,36 +208,21 @@ Proof.
   induction q as [|it q IH]; intros c P; cbn [C17_Typeahead.process_q]; [exact P|].
   destruct (cph c) eqn:PH; [| |exact P].
   - cbn [fst]. apply IH. reflexivity.
-  - destruct (item_is_cpr it) eqn:CI.
-    + apply IH. destruct it as [k|]; [|discriminate]. cbn [item_is_cpr] in CI. cbn [C17_Typeahead.deliver]. rewrite CI.
-      unfold C17_Typeahead.handle_cpr. destruct (cpr_lookup (est c)); exact P.
-    + cbn [fst]. apply IH. exact P.
+  - destruct (item_is_cpr it) eqn:CI; cbn [fst]; apply IH; [reflexivity|exact P].
 Qed.
 
-(* once the result is set only reports leave the queue *)
-Lemma process_q_done q : forall c : core, not_run c ->
-  nc (acc (fst (process_q q c))) = nc (acc c) /\
-  nc (ikeys (snd (process_q q c))) = nc (ikeys q) /\ not_run (fst (process_q q c)).
+Lemma process_q_not_run q : forall c : core, not_run c -> not_run (fst (process_q q c)).
 Proof.
-  induction q as [|it q IH]; intros c H; cbn [C17_Typeahead.process_q]; [auto|].
-  destruct (cph c) eqn:PH; [exfalso; apply H; exact PH| |auto].
-  destruct it as [k|]; cbn [item_is_cpr].
-  - destruct (is_cpr k) eqn:CK.
-    + cbn [C17_Typeahead.deliver]. rewrite CK.
-      destruct (IH (handle_cpr k c) (handle_cpr_not_run k c H)) as (A & B & C).
-      rewrite A, B, (handle_cpr_acc k c CK).
-      cbn [ikeys]. change (k :: ikeys q) with ([k] ++ ikeys q). rewrite nc_app, (nc_cpr k CK). auto.
-    + destruct (IH c H) as (A & B & C). cbn [fst snd ikeys].
-      change (k :: ikeys (snd (process_q q c))) with ([k] ++ ikeys (snd (process_q q c))).
-      change (k :: ikeys q) with ([k] ++ ikeys q).
-      rewrite !nc_app, B. auto.
-  - destruct (IH c H) as (A & B & C). cbn [fst snd ikeys]. auto.
+  induction q as [|it q IH]; intros c H; cbn [C17_Typeahead.process_q]; [exact H|].
+  destruct (cph c) eqn:PH; [exfalso; apply H; exact PH| |exact H].
+  destruct (item_is_cpr it); cbn [fst]; apply IH; [|exact H].
+  unfold not_run; cbn [cph clear_pb]. apply deliver_not_run. unfold not_run. rewrite (proj1 (proj2 (proj2 (pop_eq it c)))). congruence.
 Qed.
 
 Lemma process_q_run_back q : forall c : core, cph (fst (process_q q c)) = CRun res -> cph c = CRun res.
 Proof.
   intros c H. destruct (cph c) eqn:PH; [reflexivity| |];
-    exfalso; refine (proj2 (proj2 (process_q_done q c _)) H); unfold not_run; congruence.
+    exfalso; refine (process_q_not_run q c _ H); unfold not_run; congruence.
 Qed.
 
 Lemma ikeys_app a b : ikeys (a ++ b) = ikeys a ++ ikeys b.
@@ -294,37 +230,184 @@ Proof. induction a as [|[k|] a IH]; cbn [ikeys app]; rewrite ?IH; reflexivity. Q
 Lemma ikeys_map ks : ikeys (map IKey ks) = ks.
 Proof. induction ks as [|k ks IH]; cbn [ikeys map]; rewrite ?IH; reflexivity. Qed.
 
+Lemma nc_app a b : nc (a ++ b) = nc a ++ nc b.
+Proof. unfold nc. apply filter_app. Qed.
+Lemma nc_cpr k : is_cpr k = true -> nc [k] = [].
+Proof. unfold nc; cbn [filter]. intros ->. reflexivity. Qed.
+Lemma nc_single k : is_cpr k = false -> nc [k] = [k].
+Proof. unfold nc; cbn [filter]. intros ->. reflexivity. Qed.
+
+(* ---------------------------------------------------------------------- *)
+(* Conservation of key presses through the processor, for binding sets whose
+   handlers feed nothing (with feeding handlers the fed key presses are extra). *)
+Section NoFeeds.
+Hypothesis Hnf : forall b ks e, feeds b ks e = [].
+
+Lemma pb_call b ks (c : core) : pb (call b ks c) = pb c.
+Proof. unfold C17_Typeahead.call; cbn [pb]. rewrite Hnf. reflexivity. Qed.
+
+(* ---------------------------------------------------------------------- *)
+(* conservation through one activation of the coroutine *)
+
+Lemma acc_push_back (c : core) : acc (push_back c) = acc c.
+Proof. unfold acc, push_back, logged; cbn [rlog kbuf pb app]. reflexivity. Qed.
+
+Lemma retry_acc (k : core -> core) (c1 : core) :
+  (forall c, acc (k c) = acc c) -> acc (retry k c1) = acc c1.
+Proof. intros H. unfold retry. destruct (late c1); [apply acc_push_back|apply H]. Qed.
+
+Lemma loop_acc fuel : forall fl (c : core), acc (loop fuel fl c) = acc c.
+Proof.
+  induction fuel as [|f IH]; intros fl c; cbn [C17_Typeahead.loop].
+  - destruct (kbuf c); reflexivity.
+  - destruct (kbuf c) as [|k0 tl0] eqn:KB; [reflexivity|].
+    assert (X : forall b, acc (set_kbuf [] (call b (k0 :: tl0) c)) = acc c).
+    { intros b. unfold acc; cbn [kbuf set_kbuf pb C17_Typeahead.call]; rewrite ?Hnf; cbn [app].
+      change (logged (set_kbuf [] (call b (k0 :: tl0) c))) with (logged (call b (k0 :: tl0) c)).
+      rewrite logged_call, KB, <- app_assoc. reflexivity. }
+    assert (Y : forall b i, acc (retry (loop f false) (set_kbuf (skipn i (k0 :: tl0)) (call b (firstn i (k0 :: tl0)) c))) = acc c).
+    { intros b i. rewrite retry_acc; [|intros; apply IH]. unfold acc; cbn [kbuf set_kbuf pb C17_Typeahead.call]; rewrite ?Hnf; cbn [app].
+      change (logged (set_kbuf (skipn i (k0 :: tl0)) (call b (firstn i (k0 :: tl0)) c))) with (logged (call b (firstn i (k0 :: tl0)) c)).
+      rewrite logged_call, KB, <- app_assoc, (app_assoc (firstn i (k0 :: tl0))), firstn_skipn. reflexivity. }
+    assert (Z : acc (retry (loop f false) (set_kbuf tl0 (add_ev (@EDrop bid (late c) k0) c))) = acc c).
+    { rewrite retry_acc; [|intros; apply IH]. unfold acc; cbn [kbuf set_kbuf pb add_ev].
+      change (logged (set_kbuf tl0 (add_ev (@EDrop bid (late c) k0) c))) with (logged (add_ev (@EDrop bid (late c) k0) c)).
+      rewrite logged_cons, KB, <- app_assoc. reflexivity. }
+    destruct (cph c) eqn:PH; [| |reflexivity].
+    + destruct (negb fl && waits (est c) (k0 :: tl0)); [reflexivity|].
+      destruct (lookup (est c) (k0 :: tl0)) as [b|]; [apply X|].
+      destruct (scan (length (k0 :: tl0)) c) as [[b i]|]; [apply Y|apply Z].
+    + destruct (negb fl && waits (est c) (k0 :: tl0)); [reflexivity|].
+      destruct (lookup (est c) (k0 :: tl0)) as [b|]; [apply X|].
+      destruct (scan (length (k0 :: tl0)) c) as [[b i]|]; [apply Y|apply Z].
+Qed.
+
+Lemma send_acc_key k (c : core) : pb c = [] -> acc (send (IKey k) c) = acc c ++ [k].
+Proof.
+  intros P. unfold C17_Typeahead.send. rewrite loop_acc. unfold acc; cbn [kbuf set_kbuf pb].
+  change (logged (set_kbuf (kbuf c ++ [k]) c)) with (logged c). rewrite P, !app_nil_r, app_assoc. reflexivity.
+Qed.
+
+Lemma send_acc_flush (c : core) : acc (send IFlush c) = acc c.
+Proof. unfold C17_Typeahead.send. apply loop_acc. Qed.
+
+
+
+Lemma handle_cpr_acc k (c : core) : is_cpr k = true -> nc (acc (handle_cpr k c)) = nc (acc c).
+Proof.
+  intros CK. unfold C17_Typeahead.handle_cpr. destruct (cpr_lookup (est c)) as [b|]; [|reflexivity].
+  unfold acc. rewrite pb_call. cbn [kbuf C17_Typeahead.call]. rewrite logged_call, !nc_app, (nc_cpr k CK), app_nil_r. reflexivity.
+Qed.
+
+Lemma deliver_acc it (c : core) : pb c = [] ->
+  nc (acc (deliver it c)) = nc (acc c) ++ nc (ikeys [it]).
+Proof.
+  intros P. destruct it as [k|]; cbn [C17_Typeahead.deliver ikeys].
+  - destruct (is_cpr k) eqn:CK.
+    + rewrite (handle_cpr_acc k c CK), (nc_cpr k CK), app_nil_r. reflexivity.
+    + rewrite (send_acc_key k c P), nc_app. reflexivity.
+  - rewrite send_acc_flush. cbn. now rewrite app_nil_r.
+Qed.
+
+Lemma loop_pb_run fuel : forall fl (c : core), cph (loop fuel fl c) = CRun res -> pb (loop fuel fl c) = pb c.
+Proof.
+  induction fuel as [|f IH]; intros fl c H; cbn [C17_Typeahead.loop] in *.
+  - destruct (kbuf c); reflexivity.
+  - destruct (kbuf c) as [|k0 tl0] eqn:KB; [reflexivity|].
+    assert (R : forall c1, pb c1 = pb c -> cph (retry (loop f false) c1) = CRun res -> pb (retry (loop f false) c1) = pb c).
+    { intros c1 P1 H1. unfold retry in *. destruct (late c1) eqn:L.
+      - unfold late in L. cbn [push_back cph] in H1. rewrite H1 in L. discriminate.
+      - rewrite IH; assumption. }
+    destruct (cph c) eqn:PH; [| |reflexivity].
+    + destruct (negb fl && waits (est c) (k0 :: tl0)); [reflexivity|].
+      destruct (lookup (est c) (k0 :: tl0)) as [b|]; [cbn [pb set_kbuf]; apply pb_call|].
+      destruct (scan (length (k0 :: tl0)) c) as [[b i]|]; apply R; auto; cbn [pb set_kbuf]; apply pb_call.
+    + destruct (negb fl && waits (est c) (k0 :: tl0)); [reflexivity|].
+      destruct (lookup (est c) (k0 :: tl0)) as [b|]; [cbn [pb set_kbuf]; apply pb_call|].
+      destruct (scan (length (k0 :: tl0)) c) as [[b i]|]; apply R; auto; cbn [pb set_kbuf]; apply pb_call.
+Qed.
+
+Lemma deliver_pb_run it (c : core) : cph (deliver it c) = CRun res -> pb (deliver it c) = pb c.
+Proof.
+  destruct it as [k|]; cbn [C17_Typeahead.deliver].
+  - destruct (is_cpr k).
+    + intros _. unfold C17_Typeahead.handle_cpr. destruct (cpr_lookup (est c)); [apply pb_call|reflexivity].
+    + unfold C17_Typeahead.send. intros H. rewrite loop_pb_run; [reflexivity|exact H].
+  - unfold C17_Typeahead.send. intros H. rewrite loop_pb_run; [reflexivity|exact H].
+Qed.
+
+(* nothing is fed, so delivering with draining is delivering *)
+Lemma deliver_d_nf it (c : core) : pb c = [] -> acc (deliver_d it c) = acc (deliver it c) /\ cph (deliver_d it c) = cph (deliver it c).
+Proof.
+  intros P. unfold C17_Typeahead.deliver_d. destruct (cph (deliver it c)) eqn:PC; [|auto|auto].
+  rewrite (deliver_pb_run it c PC), P. cbn [C17_Typeahead.drain]. split; [|exact PC].
+  unfold acc; cbn [kbuf pb clear_pb]. rewrite (deliver_pb_run it c PC), P. reflexivity.
+Qed.
+
+(* once the result is set only reports leave the queue *)
+Lemma process_q_done q : forall c : core, not_run c -> pb c = [] ->
+  nc (acc (fst (process_q q c))) = nc (acc c) /\
+  nc (ikeys (snd (process_q q c))) = nc (ikeys q).
+Proof.
+  induction q as [|it q IH]; intros c H P; cbn [C17_Typeahead.process_q]; [auto|].
+  destruct (cph c) eqn:PH; [exfalso; apply H; exact PH| |auto].
+  destruct it as [k|]; cbn [item_is_cpr].
+  - destruct (is_cpr k) eqn:CK.
+    + cbn [C17_Typeahead.deliver C17_Typeahead.pop fst snd]. rewrite CK.
+      assert (PB : pb (handle_cpr k (add_pop k c)) = []).
+      { unfold C17_Typeahead.handle_cpr. cbn [est add_pop]. destruct (cpr_lookup (est c)); [rewrite pb_call|]; exact P. }
+      rewrite PB. cbn [map app].
+      destruct (IH (clear_pb (handle_cpr k (add_pop k c)))) as (A & B).
+      { unfold not_run; cbn [cph clear_pb]. apply handle_cpr_not_run. exact H. }
+      { reflexivity. }
+      rewrite A, B. split.
+      * transitivity (nc (acc (handle_cpr k (add_pop k c)))).
+        { unfold acc; cbn [kbuf pb clear_pb]. rewrite PB. reflexivity. }
+        rewrite (handle_cpr_acc k _ CK). reflexivity.
+      * cbn [ikeys]. change (k :: ikeys q) with ([k] ++ ikeys q). rewrite nc_app, (nc_cpr k CK). reflexivity.
+    + destruct (IH c H P) as (A & B). cbn [fst snd ikeys].
+      change (k :: ikeys (snd (process_q q c))) with ([k] ++ ikeys (snd (process_q q c))).
+      change (k :: ikeys q) with ([k] ++ ikeys q).
+      rewrite !nc_app, B. auto.
+  - destruct (IH c H P) as (A & B). cbn [fst snd ikeys]. auto.
+Qed.
+
 Lemma process_q_acc q : forall c : core, pb c = [] ->
   nc (acc (fst (process_q q c))) ++ nc (ikeys (snd (process_q q c))) = nc (acc c) ++ nc (ikeys q).
 Proof.
   induction q as [|it q IH]; intros c P; cbn [C17_Typeahead.process_q]; [reflexivity|].
   destruct (cph c) eqn:PH.
-  - cbn [fst snd]. set (c' := deliver it c).
+  - cbn [fst snd]. set (c0 := pop it c).
+    assert (P0 : pb c0 = []) by (unfold c0; rewrite (proj1 (proj2 (proj2 (proj2 (pop_eq it c))))); exact P).
+    assert (A0 : acc c0 = acc c) by (unfold c0; destruct it; reflexivity).
+    set (c' := deliver_d it c0).
     rewrite ikeys_app, ikeys_map, nc_app.
-    assert (DA : nc (acc c') = nc (acc c) ++ nc (ikeys [it])) by (apply deliver_acc; exact P).
+    destruct (deliver_d_nf it c0 P0) as (DN1 & DN2). fold c' in DN1, DN2.
+    assert (DA : nc (acc c') = nc (acc c) ++ nc (ikeys [it])) by (rewrite DN1, <- A0; apply deliver_acc; exact P0).
     assert (SPLIT : nc (acc c') = nc (acc (clear_pb c')) ++ nc (pb c')).
     { unfold acc; cbn [kbuf pb clear_pb]. change (logged (clear_pb c')) with (logged c').
       rewrite !nc_app. change (nc []) with (@nil kp). rewrite app_nil_r, <- app_assoc. reflexivity. }
     destruct (cph c') eqn:PC.
-    + (* still running: nothing was pushed back *)
-      assert (PB : pb c' = []) by (unfold c'; rewrite deliver_pb_run; [exact P|exact PC]).
+    + assert (PB : pb c' = []) by (apply deliver_d_pb_run; exact PC).
       pose proof (IH (clear_pb c') eq_refl) as IH'.
       rewrite PB in *. change (nc []) with (@nil kp) in *. rewrite app_nil_r in SPLIT. cbn [app].
       rewrite IH', <- SPLIT, DA.
       change (it :: q) with ([it] ++ q). rewrite ikeys_app, nc_app, <- app_assoc. reflexivity.
     + assert (NR : not_run (clear_pb c')) by (unfold not_run; cbn [cph clear_pb]; congruence).
-      destruct (process_q_done q (clear_pb c') NR) as (A & B & _). rewrite A, B.
+      destruct (process_q_done q (clear_pb c') NR eq_refl) as (A & B). rewrite A, B.
       rewrite app_assoc, <- SPLIT, DA.
       change (it :: q) with ([it] ++ q). rewrite ikeys_app, nc_app, <- app_assoc. reflexivity.
     + assert (NR : not_run (clear_pb c')) by (unfold not_run; cbn [cph clear_pb]; congruence).
-      destruct (process_q_done q (clear_pb c') NR) as (A & B & _). rewrite A, B.
+      destruct (process_q_done q (clear_pb c') NR eq_refl) as (A & B). rewrite A, B.
       rewrite app_assoc, <- SPLIT, DA.
       change (it :: q) with ([it] ++ q). rewrite ikeys_app, nc_app, <- app_assoc. reflexivity.
   - assert (H : not_run c) by (unfold not_run; congruence).
-    pose proof (process_q_done (it :: q) c H) as (A & B & _).
+    pose proof (process_q_done (it :: q) c H P) as (A & B).
     cbn [C17_Typeahead.process_q] in A, B. rewrite PH in A, B. rewrite A, B. reflexivity.
   - reflexivity.
 Qed.
+
+End NoFeeds.
 
 End P.
 Arguments acc {E bid res} c.
